@@ -376,3 +376,96 @@ fn c16_q_nested_owned_and_retry_inside_boxed() {
 	assert!(drops(3), "C16_every_value_dropped_exactly_once");
 	kani::cover!(true, "end");
 }}
+
+// Sequence containers (Box<[T]>, Vec<T>) at sizes 3 and 4: into_inner / get_mut return every value at its declared
+// position (the position-preserving obligation needs >= 3 members to tell a rotation or swap_remove from the identity),
+// reflecting a write made under a lock at a symbolic position.  Added after seeded change C16-e.
+// BoxedLockCollection has no get_mut (its members are pinned behind the cached list)
+macro_rules! c16_when {
+	(true, $b:block) => { $b };
+	(false, $b:block) => {};
+}
+macro_rules! c16_seq_body {
+	($n:expr, $kind:ident, $mk:expr, $gm:tt) => {
+		{
+			let v: [u8; 4] = kani::any();
+			let w: usize = kani::any();
+			let nv: u8 = kani::any();
+			kani::assume(w < $n);
+			{
+				let mut members: Vec<MP> = Vec::new();
+				let mut i = 0;
+				while i < $n {
+					members.push(MP::new(p(i as u8, v[i])));
+					i += 1;
+				}
+				#[allow(unused_mut)]
+				let mut c = $kind::new($mk(members));
+				assert!(no_drops(), "C16_constructor_drops_nothing");
+				{
+					let key = ThreadKey::get().unwrap();
+					let mut g = c.lock(key);
+					let mut j = 0;
+					while j < $n {
+						if j == w {
+							g[j].val = nv;
+						}
+						j += 1;
+					}
+				}
+				c16_when!($gm, {
+					let gm = c.get_mut();
+					assert!(gm.len() == $n, "C16_get_mut_returns_every_member");
+					let mut j = 0;
+					while j < $n {
+						assert!(gm[j].id == j as u8, "C16_get_mut_returns_values_at_declared_positions");
+						assert!(gm[j].val == if j == w { nv } else { v[j] }, "C16_get_mut_reflects_last_write_under_lock");
+						j += 1;
+					}
+				});
+				let inner = c.into_inner();
+				assert!(no_drops(), "C16_into_inner_drops_nothing");
+				assert!(inner.len() == $n, "C16_into_inner_returns_every_member");
+				let mut j = 0;
+				while j < $n {
+					assert!(inner[j].id == j as u8, "C16_into_inner_returns_values_at_declared_positions");
+					assert!(inner[j].val == if j == w { nv } else { v[j] }, "C16_into_inner_reflects_last_write_under_lock");
+					j += 1;
+				}
+			}
+			assert!(drops($n), "C16_every_value_dropped_exactly_once");
+			kani::cover!(true, "end");
+		}
+	};
+}
+fn as_boxed_slice(v: Vec<MP>) -> Box<[MP]> {
+	v.into_boxed_slice()
+}
+fn as_vec(v: Vec<MP>) -> Vec<MP> {
+	v
+}
+vharness! {
+#[kani::unwind(9)]
+fn c16_q_owned_boxed_slice4_into_inner_get_mut() {
+	c16_seq_body!(4, OwnedLockCollection, as_boxed_slice, true)
+}}
+vharness! {
+#[kani::unwind(9)]
+fn c16_q_retry_boxed_slice3_into_inner_get_mut() {
+	c16_seq_body!(3, RetryingLockCollection, as_boxed_slice, true)
+}}
+vharness! {
+#[kani::unwind(9)]
+fn c16_q_boxed_vec4_into_inner_get_mut() {
+	c16_seq_body!(4, BoxedLockCollection, as_vec, false)
+}}
+vharness! {
+#[kani::unwind(9)]
+fn c16_t_boxed_boxed_slice4_into_inner_get_mut() {
+	c16_seq_body!(4, BoxedLockCollection, as_boxed_slice, false)
+}}
+vharness! {
+#[kani::unwind(9)]
+fn c16_t_owned_vec3_into_inner_get_mut() {
+	c16_seq_body!(3, OwnedLockCollection, as_vec, true)
+}}
